@@ -191,7 +191,7 @@ class PropertyRun:
         for h in hs:
             oid = h.obligation
             rec = {'id': oid, 'backend': 'kani/cbmc', 'kind': h.kind, 'harness': h.name, 'unit': u.name,
-                   'result': h.result, 'checks': h.checks, 'bound': h.bound, 'what': h.what, 'assumes': h.assumes}
+                   'result': h.result, 'checks': h.checks, 'time_s': h.time_s, 'bound': h.bound, 'what': h.what, 'assumes': h.assumes}
             if h.result in ('timeout', 'error', 'missing'):
                 if h.expect == 'fail':
                     self.undecided.append(f'kani canary {u.name}:{h.name} -> {h.result}')
@@ -303,7 +303,7 @@ class PropertyRun:
         if real_violations:
             # refutations from units that ran cleanly stand even if another unit was undecided
             status = 1
-        if n_ob == 0 and status == 0:
+        if n_ob == 0 and not self.bounded and status == 0:
             self.undecided.append('zero obligations generated')
             status = 2
         wall = time.time() - self.t0
@@ -346,6 +346,7 @@ class PropertyRun:
                 tail = '' if v['found'] else ' no-failing-input-found'
                 print(f'obligation {v["obligation"]} refuted: {v["message"]}')
                 print(f'VIOLATION property={pid} replay={v["replay"]}{tail}')
-        print(f'{pid}: {n_ok}/{n_ob} obligations discharged, {len(self.bounded)} bounded checks, '
+        n_bok = sum(1 for b in self.bounded if b.get('ok'))
+        print(f'{pid}: {n_ok}/{n_ob} obligations discharged, {n_bok}/{len(self.bounded)} bounded checks passed, '
               f'{len(self.known_hits)} known findings, status={status}, {wall:.1f}s')
         return status
